@@ -213,6 +213,11 @@ package stgutg
 //@ func RegisterUE
 //@ prop C01
 //@ behavior trace
+// the AMF-UE-NGAP-ID of every later uplink message is the one the AMF put first into its first downlink
+// message (the decoded reply is an unknown but fixed structure: the same value is read here and there)
+//@ call GetUplinkNASTransport amfid (amfUeNgapID int64, ngapMsg *ngapType.NGAPPDU): amfUeNgapID == ngapMsg.InitiatingMessage.Value.DownlinkNASTransport.ProtocolIEs.List[0].Value.AMFUENGAPID.Value
+//@ call GetInitialContextSetupResponse amfid (amfUeNgapID int64, ngapMsg *ngapType.NGAPPDU): amfUeNgapID == ngapMsg.InitiatingMessage.Value.DownlinkNASTransport.ProtocolIEs.List[0].Value.AMFUENGAPID.Value
+//@ call GetNasPdu reply (msg *ngapType.DownlinkNASTransport, ngapMsg *ngapType.NGAPPDU): msg == ngapMsg.InitiatingMessage.Value.DownlinkNASTransport
 //@ call ManageError completes (err error): err == nil || vc.Faulted()
 //@ driver
 //@ assumepre
@@ -300,6 +305,10 @@ package stgutg
 //@ func EstablishPDU
 //@ prop C02
 //@ behavior trace
+// what is handed to the two extractors is the NAS-PDU and the transfer of the first item of the setup
+// list (third IE) of the decoded PDU SESSION RESOURCE SETUP REQUEST, and their results are returned
+//@ call DecodePDUSessionNASPDU item (PDUSessionNASPDU []byte, msg *ngapType.NGAPPDU): vcSameOctets(PDUSessionNASPDU, msg.InitiatingMessage.Value.PDUSessionResourceSetupRequest.ProtocolIEs.List[2].Value.PDUSessionResourceSetupListSUReq.List[0].PDUSessionNASPDU.Value)
+//@ call DecodePDUSessionResourceSetupRequestTransfer item (PDUSessionResourceSetupRequestTransfer []byte, msg *ngapType.NGAPPDU): vcSameOctets(PDUSessionResourceSetupRequestTransfer, msg.InitiatingMessage.Value.PDUSessionResourceSetupRequest.ProtocolIEs.List[2].Value.PDUSessionResourceSetupListSUReq.List[0].PDUSessionResourceSetupRequestTransfer)
 //@ call GetUlNasTransport_PduSessionEstablishmentRequest slice (sNssai *models.Snssai, sst int32, sd string): sNssai != nil && sNssai.Sst == sst && sNssai.Sd == sd
 //@ call GetPDUSessionResourceSetupResponse gtp (ipv4 string, gnb_gtp string): ipv4 == gnb_gtp
 //@ call ManageError completes (err error): err == nil || vc.Faulted()
